@@ -645,10 +645,13 @@ class SynthDef(metaclass=MetaSynthDef):
             mode = 'wb'
         else:
             mode = 'xb'
+        # Serialize first, a definition that can't be
+        # written must not leave a truncated file behind.
+        data = self.as_bytes()
         try:
             # Should write if file doesn't exists or overwrite is True.
             with open(path, mode) as file:
-                self._write_def_list([self], file)
+                file.write(data)
             desc = sdc.SynthDesc.new_from(self)
             sdc.SynthDesc.populate_metadata_func(desc)
             desc.write_metadata(dir, md_plugin)
